@@ -13,8 +13,10 @@ Definition id_sorted (l : list ev) := StronglySorted (fun a b => eid a < eid b) 
 
 Record SI2 (s : sp) : Prop := { SI2_si : SI s; SI2_zsorted : id_sorted (s_zero s) }.
 
+Lemma SI2_new_at ts : SI2 (sp_new_at ts).
+Proof. split; [apply SI_new_at|constructor]. Qed.
 Lemma SI2_new : SI2 sp_new.
-Proof. split; [apply SI_new|constructor]. Qed.
+Proof. apply SI2_new_at. Qed.
 
 Lemma id_sorted_app_one l e : id_sorted l -> (forall x, In x l -> eid x < eid e) -> id_sorted (l ++ [e]).
 Proof.
@@ -51,10 +53,11 @@ Qed.
 
 Lemma SI2_step a o : SI2 (ss a) -> SI2 (ss (fst (sp_step a o))).
 Proof.
-  intros HS. destruct o as [t p|k| | |]; cbn [sp_step].
+  intros HS. destruct o as [t p|k| | | |]; cbn [sp_step].
   - pose proof (SI2_add (ss a) t p HS) as H. destruct (sp_add (ss a) t p) as [[s' h] x]. exact H.
   - destruct (pick_handle (shandles a) k) as [[t i]|]; [apply SI2_cancel|]; exact HS.
   - pose proof (SI2_fetch (ss a) HS) as H. destruct (sp_fetch (ss a)) as [s' x]. exact H.
+  - exact HS.
   - exact HS.
   - exact HS.
 Qed.
@@ -128,7 +131,7 @@ Proof.
   { intros H1 H2. pose proof (in_zero_rest _ _ HS H2) as F. rewrite (in_zero_true _ _ H1) in F. discriminate. }
   assert (Hfresh : forall t p, e <> {| etime := t; eid := s_next (ss a); epay := p |}).
   { intros t p ->. specialize (Hi _ Hin). cbn in Hi. lia. }
-  destruct o as [t p|k| | |]; cbn [sp_step] in *; try tauto.
+  destruct o as [t p|k| | | |]; cbn [sp_step] in *; try tauto.
   - unfold sp_add in *. destruct (t <? s_tcur (ss a)); [tauto|].
     destruct (t =? s_tcur (ss a)); cbn [fst ss s_zero s_rest spend] in *; unfold spend in *; cbn [s_zero s_rest] in *.
     + rewrite in_app_iff. cbn [In]. specialize (Hfresh t p). split; [tauto|]. intros [H|[H|[]]]; [exact H|congruence].
